@@ -12,27 +12,35 @@
  *      per-mode bitrate floor (statement: "bitrate >= a per-mode floor"): mono 64/32/20/16 kb/s for
  *      2.5/5/10/>=20 ms frames, stereo 1.5x that.
  *      quick tier: durations {2.5,5,10,20,60,120} ms, complexities {0,10}, 0.6 s excerpts; thorough: everything, 1.5 s.
- * part ms (multistream / projection): layouts {stereo (family 1), 5.1 (family 1), dual-mono (family 255: two
- *      uncoupled streams), ambisonics projection order 1,2,3 (family 3: 4, 9, 16 channels)} x Fs x application x
- *      duration x 3 per-channel bitrate levels x complexity x {VBR,CBR}; every channel carries its own signal
- *      (families rotated over the channels, per-channel level offsets); plus one-hot runs (one channel active,
- *      all others silent) on the (20 ms, top level, complexity 10, VBR) sub-grid.
+ * part ms (multistream / projection): layouts {stereo (family 1), 5.1 (family 1), dual-mono (two uncoupled streams),
+ *      ambisonics projection order 1,2,3 (family 3: 4, 9, 16 channels; decoder built from the encoder's demixing matrix, its gain
+ *      applied through OPUS_SET_GAIN)} x Fs x application x duration x 3 per-channel bitrate levels (per-mode floor x {2,4,6}) x
+ *      complexity x {VBR,CBR}; every channel carries its own signal (5 families rotated over the channels, per-channel level
+ *      offsets, the 5.1 LFE channel two low tones); plus one-hot runs (one channel active, all others silent) on the
+ *      (20 ms, top level, complexity 10, VBR) sub-grid.  quick: Fs {16,48} kHz, durations {2.5,5,10,20,60} ms, complexity 10;
+ *      thorough: all 5 rates, all 9 durations, complexity {0,5,10}.
  *
  * Oracles (all from the statement):
- *  (a) delay: the lag maximising the input/output cross-correlation (summed over channels) equals OPUS_GET_LOOKAHEAD:
- *      exactly when every packet in the analysed span is CELT-only, to within 0.1 ms (sub-sample peak position by
- *      parabolic interpolation) when SILK / hybrid packets (resamplers) are in the path. Applied only where the
- *      coder is above its per-mode floor, operationalised as SNR >= 6 dB at the best lag (design-time calibration:
- *      all disagreements sat at negative SNR).
+ *  (a) delay: the lag maximising the normalised input/output cross-correlation (summed over channels; searched from 4 ms below to
+ *      5 ms above the reported value) equals OPUS_GET_LOOKAHEAD. Exactly (integer peak) for aperiodic broadband input (sweep,
+ *      band noise, clicks) when every packet in the analysed span is CELT-only; to within 0.1 ms (sub-sample peak by parabolic
+ *      interpolation) when SILK / hybrid packets (resamplers) are in the path — the statement's own tolerance — and for tonal /
+ *      low-frequency-dominated input (see judge() for why); not applied to the single 440 Hz carrier of the stereo-pan family.
+ *      Applied only where the coder is above its per-mode floor, operationalised as SNR >= 6 dB at the best or the reported lag
+ *      (design-time calibration: all disagreements sat at negative SNR).
  *  (b) SNR at the reported lag, segmental SNR (20 ms segments) and per-band energy error (21 CELT-like bands,
  *      eband5ms x 200 Hz, inside the coded bandwidth, bands carrying >= -30 dB of the input energy) must stay inside
  *      the calibrated bounds of thresholds.h (worst observed on the unchanged tree over the whole grid -/+ 3 dB).
- *  (c) channel identity: L-only / R-only / L=-R: energy stays on its side (>= 20 dB separation at >= 64 kb/s, > 0 dB
- *      below), sign preserved (correlation with the own input > 0), level within 1 dB (at >= 64 kb/s);
- *      multistream / projection: every output channel is closest to its own input channel (smallest error energy
- *      among all input channels), positively correlated with it; one-hot: >= 20 dB below the active channel
- *      on every other output, level of the active channel within 1 dB.
+ *  (c) channel identity: L-only / R-only / L=-R: energy stays on its side (>= 20 dB separation), sign preserved (normalised
+ *      correlation with the own input > 0), level within 1 dB — these three strictly at >= 64 kb/s and >= 2.5 x the per-mode floor;
+ *      at the floor itself only "energy stays on its side" (> 0 dB) and "no sign flip" (correlation > -0.5);
+ *      multistream / projection: the input channel an output channel is most strongly correlated with (|rho| >= 0.5) must be
+ *      its own, with positive sign; one-hot: >= 20 dB below the active channel on every other output, level of the active
+ *      channel within 1 dB, positive correlation.
  *  Also: every encode returns a packet, every decode returns exactly frame_size samples (otherwise "roundtrip_error").
+ *
+ * Thresholds: `--calibrate <file>` runs the same grid, records the worst value per cell and writes the table (props/C04/calibrate.sh).
+ * `--dump 1` prints one line of metrics per run on stderr (used to study the unchanged tree; not used by ./check).
  */
 #include <stdlib.h>
 #include <string.h>
